@@ -139,7 +139,7 @@ def check_reject(case, rec):
 
 
 SUBS = [
-    Sub("location", lambda tier: gen.with_carrier(loc_case(tier)), check_loc, quick=3000, thorough=60000),
+    Sub("location", lambda tier: gen.with_carrier(loc_case(tier)), check_loc, quick=5000, thorough=60000),
     Sub("location_reject", reject_case, check_reject, quick=300, thorough=3000, quick_shards=1),
 ]
 REQUIRED_CLASSES = ["location:on_box_edge", "location:suspect_hop_at_fail_point", "location:hop_next_to_partial",
